@@ -36,5 +36,21 @@ if [ "${1:-}" = "--replay" ]; then
   exec "$BIN" replay "$ID" "$2"
 fi
 TIER="${1:-${VERIF_TIER:-quick}}"
+if [ "$ID" = "C04" ] && [ "$TIER" = "thorough" ] && [ -z "${VERIF_NO_FUZZ:-}" ]; then
+  # auxiliary stage: Go's native coverage-guided fuzzer over the C04 oracle.
+  # Crashers land in fuzz/testdata/fuzz/FuzzExpr and are re-judged
+  # deterministically by the check's "fuzz-corpus" phase below.
+  FLOG=".work.fuzz.$$.log"
+  touch "$FLOG.start"
+  go test $MODFLAG -tags verif -run '^$' -fuzz '^FuzzExpr$' -fuzztime "${VERIF_FUZZ_EXECS_TARGET:-3000000}x" ./fuzz > "$FLOG" 2>&1
+  export VERIF_FUZZ_EXECS=$(grep -o 'execs: [0-9]*' "$FLOG" | tail -1 | grep -o '[0-9]*')
+  grep -E "^(--- FAIL|FAIL|ok|PASS)|Failing input" "$FLOG" | head -5
+  if [ -n "${VERIF_REPO:-}" ] && [ -d fuzz/testdata/fuzz/FuzzExpr ]; then
+    # findings against a scratch copy do not belong to /verif
+    mkdir -p "$VERIF_ROOT/fuzz-crashers"
+    find fuzz/testdata/fuzz/FuzzExpr -type f -newer "$FLOG.start" -exec mv {} "$VERIF_ROOT/fuzz-crashers/" \; 2>/dev/null
+  fi
+  rm -f "$FLOG" "$FLOG.start"
+fi
 "$BIN" run "$ID" --tier "$TIER"
 exit $?
